@@ -190,7 +190,7 @@ fn guarded<T>(f: impl FnOnce() -> Result<T, (String, String)>) -> Result<T, (Str
 /// [kind, a_lo, a_hi, b_lo, b_hi, two 13-byte mutations, pad]: kind&7 = 1|5 the mutated corpus message (type a, base b,
 /// two type-directed mutations, e.g. a list length and an extreme leaf: "refused at element k"), 2 = a
 /// build_generated_message call (type a, seed b), 4 = a residue probe (1059 message with payload length chosen by a whose
-/// last byte has one data bit and seven padding bits), otherwise pool entry a (the C12 pool: every type, full lists,
+/// last byte has one data bit and seven padding bits), 6 = the message of an earlier step again, otherwise pool entry a (the C12 pool: every type, full lists,
 /// refused-first and refused-late messages). The last step is the target.
 pub fn run_builder_history(data: &[u8]) -> Vec<Finding> {
     const STEP: usize = 32;
@@ -231,6 +231,17 @@ pub fn run_builder_history(data: &[u8]) -> Vec<Finding> {
                 owned.push(Owned::G(row.number, b as u64));
             }
             4 if !probes.is_empty() => owned.push(Owned::R(&probes[(a as usize * probes.len()) >> 16].1)),
+            // the same message as an earlier step of this history (back reference)
+            6 if !owned.is_empty() => {
+                let j = a as usize % owned.len();
+                let again = match &owned[j] {
+                    Owned::P(i) => Owned::P(*i),
+                    Owned::M(m, t) => Owned::M(m.clone(), t.clone()),
+                    Owned::G(n, sd) => Owned::G(*n, *sd),
+                    Owned::R(m) => Owned::R(*m),
+                };
+                owned.push(again);
+            }
             _ => owned.push(Owned::P((a as usize * pool.len()) >> 16)),
         }
     }
